@@ -337,7 +337,7 @@ func runC16Child(env *Env, job *c16Job, n int) c16Result {
 	for i, a := range job.Argv {
 		if strings.HasPrefix(a, "@idlist:") {
 			p := filepath.Join(dir, "ids.txt")
-			os.WriteFile(p, []byte(strings.ReplaceAll(a[len("@idlist:"):], ",", " \n\t")+"\n"), 0o644) // blanks around the ids
+			os.WriteFile(p, []byte(strings.ReplaceAll(a[len("@idlist:"):], ",", " \n\t")+c16ListEnd(a)), 0o644) // blanks around the ids
 			job.Argv[i] = p
 		}
 	}
@@ -779,7 +779,7 @@ func runC16Binary(env *Env, bindir string, job *c16Job, n int) c16Result {
 		switch {
 		case strings.HasPrefix(a, "@idlist:"):
 			p := filepath.Join(dir, "ids.txt")
-			os.WriteFile(p, []byte(strings.ReplaceAll(a[len("@idlist:"):], ",", " \n\t")+"\n"), 0o644)
+			os.WriteFile(p, []byte(strings.ReplaceAll(a[len("@idlist:"):], ",", " \n\t")+c16ListEnd(a)), 0o644)
 			a = p
 		case a == "mates" && i > 0 && job.Argv[i-1] == "--paired-with":
 			a = filepath.Join(dir, "mates"+ext)
@@ -867,7 +867,7 @@ var (
 	c16ReBy = map[string][]string{"s": {"ACGT", "^acg", "g$", "cat"}, "D": {"record", "^Record"}, "I": {"^sA", "_1", "2$"}}
 	c16APat = [][2]string{{"sample", "^A$"}, {"sample", "A"}, {"count", "^5"}, {"tag", "x"}, {"n", "5"}, {"count", "5"}, {"definition", "record"}}
 	c16Pred = []string{"sequence.Len() > 9", "sequence.Count() >= 5", "contains(annotations,\"sample\")", "sequence.Len() < 6 || sequence.Count() > 10"}
-	c16Expr = []string{"1", "7", "\"lit\"", "len(sequence)", "sequence.Id()"}
+	c16Expr = []string{"1", "7", "\"lit\"", "len(sequence)", "sequence.Id()", "annotations.sample"}
 	c16IdEx = []string{"printf(\"%s_x\",sequence.Id())", "\"p_\" + sequence.Id()"}
 	c16Keys = []string{"count", "sample", "n", "tag", "definition", "zzz", "k1", "k2"}
 )
@@ -1043,6 +1043,17 @@ func randAnnotOpts(rng *rand.Rand) []c16Inst {
 		pool := []string{"a", "b", "c", "d", "e", "count", "sample", "seq_length", "k1"}
 		for _, k := range rng.Perm(len(pool))[:1+rng.Intn(5)] {
 			opts = append(opts, c16Inst{Fam: "set", Key: pool[k], Re: c16Expr[rng.Intn(len(c16Expr))]})
+		}
+		// the occurrences of -S are applied in an unspecified order: an expression that reads `sample` is only used when
+		// no other -S writes it (deletions, renames ... are applied before all the -S: they are part of the specification)
+		writes := false
+		for _, o := range opts {
+			writes = writes || (o.Fam == "set" && o.Key == "sample")
+		}
+		for i := range opts {
+			if writes && opts[i].Fam == "set" && opts[i].Re == "annotations.sample" {
+				opts[i].Re = "7"
+			}
 		}
 	}
 	if rng.Intn(2) == 0 {
@@ -1247,4 +1258,12 @@ func recordC16(env *Env) {
 		c16Execute(env, ev, &job, i, bindir)
 		env.emit(ev)
 	})
+}
+
+// c16ListEnd: an identifier list ends with a new line or not (printf, echo -n, some editors): one list in two of each kind
+func c16ListEnd(a string) string {
+	if len(a)%2 == 0 {
+		return "\n"
+	}
+	return ""
 }
